@@ -1,7 +1,7 @@
 import HexModel.Core.Eval
 /-
 `_find_calc_index` on a list whose finished prefix holds the indicator's key and whose fresh
-suffix does not: it resumes exactly at the first fresh candle (≥ 2 finished), or at 0.
+suffix does not: it resumes exactly at the first fresh candle.
 -/
 namespace Hex
 variable {F : Type} [PyF F]
@@ -11,10 +11,17 @@ def SplitAt (name : String) (done fresh : List (Candle F)) : Prop :=
   (∀ c ∈ done, hasKey name c = true) ∧ (∀ c ∈ fresh, hasKey name c = false)
 
 theorem scanBack_split (name : String) (done fresh : List (Candle F)) (h : SplitAt name done fresh)
-    (hd : 2 ≤ done.length) (j : Nat) (hj : done.length - 1 ≤ j) (hj2 : j < (done ++ fresh).length) :
+    (hd : 1 ≤ done.length) (j : Nat) (hj : done.length - 1 ≤ j) (hj2 : j < (done ++ fresh).length) :
     scanBack name (done ++ fresh) j = done.length := by
   induction j with
-  | zero => omega
+  | zero =>
+    have hlen : done.length = 1 := by omega
+    unfold scanBack
+    have hget : (done ++ fresh)[0]? = some ((done ++ fresh)[0]'hj2) := List.getElem?_eq_getElem hj2
+    rw [hget]
+    have hc : hasKey name ((done ++ fresh)[0]'hj2) = true := by
+      rw [List.getElem_append_left (by omega)]; exact h.1 _ (List.getElem_mem _)
+    simp only [hc, if_true]; omega
   | succ j ih =>
     unfold scanBack
     have hget : (done ++ fresh)[j+1]? = some ((done ++ fresh)[j+1]'hj2) := List.getElem?_eq_getElem hj2
@@ -30,26 +37,30 @@ theorem scanBack_split (name : String) (done fresh : List (Candle F)) (h : Split
       exact ih (by omega) (by omega)
 
 theorem scanBack_none (name : String) (cs : List (Candle F)) (j : Nat)
-    (h : ∀ k, 1 ≤ k → k ≤ j → ∀ c, cs[k]? = some c → hasKey name c = false) : scanBack name cs j = 0 := by
+    (h : ∀ k, k ≤ j → ∀ c, cs[k]? = some c → hasKey name c = false) : scanBack name cs j = 0 := by
   induction j with
-  | zero => rfl
+  | zero =>
+    unfold scanBack
+    cases hc : cs[0]? with
+    | none => rfl
+    | some c => simp [h 0 (Nat.le_refl 0) c hc]
   | succ j ih =>
     unfold scanBack
     cases hc : cs[j+1]? with
-    | none => simp only; exact ih (fun k h1 h2 => h k h1 (by omega))
+    | none => simp only; exact ih (fun k h2 => h k (by omega))
     | some c =>
-      have := h (j+1) (by omega) (by omega) c hc
+      have := h (j+1) (by omega) c hc
       simp only [this, Bool.false_eq_true, if_false]
-      exact ih (fun k h1 h2 => h k h1 (by omega))
+      exact ih (fun k h2 => h k (by omega))
 
-/-- **Resume index** with at least two finished candles: the first fresh candle. -/
+/-- **Resume index**: with at least one finished candle, the first fresh candle. -/
 theorem findCalcIndex_resume (name : String) (done fresh : List (Candle F)) (h : SplitAt name done fresh)
-    (hd : 2 ≤ done.length) : findCalcIndex name (done ++ fresh) = done.length := by
+    (hd : 1 ≤ done.length) : findCalcIndex name (done ++ fresh) = done.length := by
   match done, h, hd with
-  | d0 :: d1 :: dr, h, _ =>
+  | d0 :: dr, h, _ =>
     have hd0 : hasKey name d0 = true := h.1 d0 (by simp)
-    have hscan := scanBack_split name (d0 :: d1 :: dr) fresh h (by simp)
-      (((d0 :: d1 :: dr) ++ fresh).length - 1) (by simp) (by simp)
+    have hscan := scanBack_split name (d0 :: dr) fresh h (by simp)
+      (((d0 :: dr) ++ fresh).length - 1) (by simp) (by simp)
     simp only [findCalcIndex, List.cons_append, hd0, Bool.not_true, Bool.false_eq_true, if_false]
     simpa using hscan
 
@@ -60,20 +71,11 @@ theorem findCalcIndex_fresh (name : String) (fresh : List (Candle F))
   | nil => rfl
   | cons c r => simp [findCalcIndex, h c (by simp)]
 
-/-- only candle 0 finished: the scan (which never inspects index 0) restarts from 0 -/
+/-- only candle 0 finished: the scan now inspects index 0 too and resumes at 1 -/
 theorem findCalcIndex_one (name : String) (d0 : Candle F) (fresh : List (Candle F))
-    (h : ∀ c ∈ fresh, hasKey name c = false) : findCalcIndex name (d0 :: fresh) = 0 := by
-  unfold findCalcIndex
-  by_cases hd0 : hasKey name d0 = true
-  · simp only [hd0, Bool.not_true, Bool.false_eq_true, if_false]
-    apply scanBack_none
-    intro k h1 _ c hc
-    have : (d0 :: fresh)[k]? = fresh[k-1]? := by
-      cases k with
-      | zero => omega
-      | succ k => simp
-    rw [this] at hc
-    exact h c (List.mem_of_getElem? hc)
-  · simp [hd0]
+    (hd0 : hasKey name d0 = true) (h : ∀ c ∈ fresh, hasKey name c = false) :
+    findCalcIndex name (d0 :: fresh) = 1 := by
+  have := findCalcIndex_resume name [d0] fresh ⟨by simpa using hd0, h⟩ (by simp)
+  simpa using this
 
 end Hex
